@@ -18,7 +18,7 @@ type zzPayload struct{ b []byte }
 
 func (p zzPayload) SignBytes() []byte { return p.b }
 
-//zz:harness unwind=60 maxpaths=60000 timebudget=900 replay=model
+//zz:harness unwind=60 maxpaths=60000 timebudget=900 replay=model param.n@thorough=4
 //zz:reach AS.first-accepted AS.second-accepted AS.second-full
 func ZZ_C02_aggregate_signature_checks_in_sequence() {
 	n := zzParam("n", 3)
